@@ -501,6 +501,20 @@ impl Write for FailingWriter {
     }
 }
 
+fn run_with_writers(cmd: &mut Command, s2: &Script, wo: &mut ShortWriter, we: &mut ShortWriter, want_o: &[u8], want_e: &[u8]) -> Check {
+    if s2.api_spawn {
+        let mut child = cmd.spawn_and_write_streams(wo, we).map_err(|e| Fail::new("C19:io-error", e.to_string()))?;
+        let status = child.wait().map_err(|e| Fail::new("C19:io-error", e.to_string()))?;
+        ensure!(status.code() == Some(s2.exit as i32), "C19:exit-status-not-preserved", "status {:?} want {}", status.code(), s2.exit);
+    } else {
+        let out = cmd.output_and_write_streams(wo, we).map_err(|e| Fail::new("C19:io-error", e.to_string()))?;
+        ensure!(out.status.code() == Some(s2.exit as i32), "C19:exit-status-not-preserved", "status {:?} want {}", out.status.code(), s2.exit);
+        ensure!(out.stdout == want_o, "C19:output-stdout-differs", "Output.stdout has {} bytes, child wrote {} (first diff at {:?})", out.stdout.len(), want_o.len(), first_diff(&out.stdout, want_o));
+        ensure!(out.stderr == want_e, "C19:output-stderr-differs", "Output.stderr has {} bytes, child wrote {} (first diff at {:?})", out.stderr.len(), want_e.len(), first_diff(&out.stderr, want_e));
+    }
+    Ok(())
+}
+
 enum Outcome {
     Done(Check),
     Deadlock(String),
@@ -533,20 +547,21 @@ fn run_script(scratch: &Scratch, s: &Script, watchdog: Duration) -> Outcome {
                 }
                 return Ok(());
             }
-            let mut wo: Vec<u8> = vec![];
-            let mut we: Vec<u8> = vec![];
-            if s2.api_spawn {
-                let mut child = cmd.spawn_and_write_streams(&mut wo, &mut we).map_err(|e| Fail::new("C19:io-error", e.to_string()))?;
-                let status = child.wait().map_err(|e| Fail::new("C19:io-error", e.to_string()))?;
-                ensure!(status.code() == Some(s2.exit as i32), "C19:exit-status-not-preserved", "status {:?} want {}", status.code(), s2.exit);
-            } else {
-                let out = cmd.output_and_write_streams(&mut wo, &mut we).map_err(|e| Fail::new("C19:io-error", e.to_string()))?;
-                ensure!(out.status.code() == Some(s2.exit as i32), "C19:exit-status-not-preserved", "status {:?} want {}", out.status.code(), s2.exit);
-                ensure!(out.stdout == want_o, "C19:output-stdout-differs", "Output.stdout has {} bytes, child wrote {} (first diff at {:?})", out.stdout.len(), want_o.len(), first_diff(&out.stdout, &want_o));
-                ensure!(out.stderr == want_e, "C19:output-stderr-differs", "Output.stderr has {} bytes, child wrote {} (first diff at {:?})", out.stderr.len(), want_e.len(), first_diff(&out.stderr, &want_e));
-            }
-            ensure!(wo == want_o, "C19:writer-stdout-differs", "stdout writer got {} bytes, child wrote {} (first diff at {:?})", wo.len(), want_o.len(), first_diff(&wo, &want_o));
-            ensure!(we == want_e, "C19:writer-stderr-differs", "stderr writer got {} bytes, child wrote {} (first diff at {:?})", we.len(), want_e.len(), first_diff(&we, &want_e));
+            // the supplied writers accept a bounded number of bytes per write call (legal per the Write contract): three
+            // of four scripts get short-writing writers, with different bounds for the two streams
+            let bound = |k: u64| match hash_of(&(&s2, k)) % 4 {
+                0 => usize::MAX,
+                1 => 7,
+                2 => 4096,
+                _ => 100_000,
+            };
+            let mut swo = ShortWriter { max: bound(1), data: vec![] };
+            let mut swe = ShortWriter { max: bound(2), data: vec![] };
+            let r = run_with_writers(&mut cmd, &s2, &mut swo, &mut swe, &want_o, &want_e);
+            let (wo, we) = (swo.data, swe.data);
+            r?;
+            ensure!(wo == want_o, "C19:writer-stdout-differs", "stdout writer (at most {} bytes per write) got {} bytes, child wrote {} (first diff at {:?})", bound(1), wo.len(), want_o.len(), first_diff(&wo, &want_o));
+            ensure!(we == want_e, "C19:writer-stderr-differs", "stderr writer (at most {} bytes per write) got {} bytes, child wrote {} (first diff at {:?})", bound(2), we.len(), want_e.len(), first_diff(&we, &want_e));
             Ok(())
         })();
         let _ = tx.send(r);
@@ -697,7 +712,7 @@ fn run_early_close(ctx: &Ctx, sleeps_ms: &[u64]) {
 }
 
 pub fn run(ctx: &Ctx) {
-    ctx.set_rule("(1) child scripts: 0..8 steps of (stream, size in {0,1..200,4096,65536,65537,..262144}, pause), single-threaded interleaved or one thread per stream, early close of a stream, exit code, in 1 of 5 scripts a supplied writer that fails after 0/10/5000/70000 bytes (the call must still come back); run through output_and_write_streams and spawn_and_write_streams, compared bytewise with the script's per-stream content; children that close both streams and keep running for 3-6 s must not delay the return of spawn_and_write_streams. (2) MappedWrite: EXHAUSTIVE all byte strings of length <= L over {marker,a,b} (L=8 quick, 10 thorough) x all 2^(n-1) chunkings into write calls (+ zero-length writes on every fifth chunking) x finalisation by drop and by unwrap, mapping seg -> '[' seg ']'; sampled inputs <=200 bytes with add_prefix / map_utf8_lossy / repeat under random chunkings. (3) TeeWrite under the same chunkings with short-writing targets (1..3 bytes per write). Non-trivial: (1) a stream carries more than one 64 KiB pipe buffer while the other stream is still open; (2) input contains a marker and a write boundary falls inside a segment; distinct = hash of script / (input, chunking).");
+    ctx.set_rule("(1) child scripts: 0..8 steps of (stream, size in {0,1..200,4096,65536,65537,..262144}, pause), single-threaded interleaved or one thread per stream, early close of a stream, exit code, in 1 of 5 scripts a supplied writer that fails after 0/10/5000/70000 bytes (the call must still come back); otherwise the supplied writers accept at most 7 / 4096 / 100000 / unbounded bytes per write call (chosen per stream); run through output_and_write_streams and spawn_and_write_streams, compared bytewise with the script's per-stream content; children that close both streams and keep running for 3-6 s must not delay the return of spawn_and_write_streams. (2) MappedWrite: EXHAUSTIVE all byte strings of length <= L over {marker,a,b} (L=8 quick, 10 thorough) x all 2^(n-1) chunkings into write calls (+ zero-length writes on every fifth chunking) x finalisation by drop and by unwrap, mapping seg -> '[' seg ']'; sampled inputs <=200 bytes with add_prefix / map_utf8_lossy / repeat under random chunkings. (3) TeeWrite under the same chunkings with short-writing targets (1..3 bytes per write). Non-trivial: (1) a stream carries more than one 64 KiB pipe buffer while the other stream is still open; (2) input contains a marker and a write boundary falls inside a segment; distinct = hash of script / (input, chunking).");
     ctx.assume("deadlock is decided by a 30 s watchdog plus /proc/<child>/syscall showing the child blocked in write(2) on fd 1 or 2; any other watchdog expiry is reported as inconclusive (exit 2)");
     ctx.assume("the OS scheduler is not controlled; the blocking structure is controlled through the child's script");
     ctx.set_exhaustive(true);
